@@ -172,7 +172,7 @@ class norm_mult_atom(Conv):
                 return pt.on_rhs(
                     rewr_conv('int_mult_assoc', sym=True),  # a * (b^e1 * b^e2)
                     arg_conv(rewr_conv('int_power_add', sym=True)),  # a * (b^(e1 + e2))
-                    arg_conv(arg_conv(int_eval_conv())))  # evaluate e1 + e2
+                    arg_conv(arg_conv(nat.nat_conv())))  # evaluate e1 + e2
             else:  # if b < c, atoms already ordered since we assume b is ordered.
                 return pt
         else:  # t is of the form a * b
@@ -182,7 +182,7 @@ class norm_mult_atom(Conv):
             elif cp == 0:  # if a and b have the same base, combine the exponents
                 return pt.on_rhs(
                     rewr_conv('int_power_add', sym=True),
-                    arg_conv(int_eval_conv()))
+                    arg_conv(nat.nat_conv()))
             else:
                 return pt
 
